@@ -95,7 +95,14 @@ def judge(script, obs, oracles):
                 peeks[topic] = (kind, op.get('budget'), ents)
         elif kind == 'batch_read' and op.get('start_offset') is not None:
             if 'entries' in o and o['entries']:
-                ents = o['entries']
+                ents = []
+                for en in o['entries']:
+                    # an empty payload carries no identity: it stands for the next entry of the run if that one is empty
+                    if en.get('uid') is None and en.get('len') == 0 and ents and ents[-1].get('uid') in q:
+                        nxt = q.index(ents[-1]['uid']) + 1
+                        if nxt < len(q) and lens[q[nxt]] == 0:
+                            en = dict(en, uid=q[nxt], start=0, topic=topic)
+                    ents.append(en)
                 uids = [en.get('uid') for en in ents]
                 okrun = all(u is not None for u in uids) and all(en.get('topic', topic) == topic for en in ents)
                 if okrun:
